@@ -627,6 +627,11 @@ func navExceptionHolds(fn *ssa.Function, call ssa.CallInstruction) bool {
 						if strings.HasSuffix(k, "."+posFieldName) {
 							return false
 						}
+						// nor is the path cut or rebuilt there: a "rollback" on the error edge of a method whose
+						// retry-safety rests on keeping what was reached drops an entry the retry needs
+						if navStateRoot(st.Addr) != nil {
+							return false
+						}
 					}
 				}
 			}
